@@ -91,7 +91,23 @@ fn main() {
                     if !first.starts_with("# props:") || !first.split(|c| c == ' ' || c == ',').any(|t| t == prop) {
                         continue;
                     }
-                    pre.push(run::Case::new(format!("corpus:{}", f.file_name().unwrap().to_string_lossy()), it.map(|s| s.to_string()).collect()));
+                    // a line `#= <oracle> | <expected output> | <tag,tag>` attaches a specification expectation to the line before it
+                    let mut lines: Vec<String> = vec![];
+                    let mut expect = vec![];
+                    for l in it {
+                        if let Some(rest) = l.strip_prefix("#= ") {
+                            let parts: Vec<&str> = rest.split(" | ").collect();
+                            if parts.len() >= 2 && !lines.is_empty() {
+                                let tags = parts.get(2).map(|t| t.split(',').map(|x| x.trim().to_string()).filter(|x| !x.is_empty()).collect()).unwrap_or_default();
+                                expect.push((lines.len() - 1, run::Expect { out: parts[1].trim().to_string(), oracle: parts[0].trim().to_string(), tags }));
+                            }
+                        } else if !l.starts_with('#') {
+                            lines.push(l.to_string());
+                        }
+                    }
+                    let mut c = run::Case::new(format!("corpus:{}", f.file_name().unwrap().to_string_lossy()), lines);
+                    c.expect = expect;
+                    pre.push(c);
                 }
                 pre.extend(plan.cases);
                 plan.cases = pre;
